@@ -1,6 +1,7 @@
 package props
 
 import (
+	"strconv"
 	"bytes"
 	"encoding/base64"
 	"fmt"
@@ -296,7 +297,10 @@ func ssoBuild(p ssoP) (*world.World, *http.Request, *ssoTruth) {
 	if p.Issuer != "" {
 		t.Conformant = false
 	}
-	t.IDNonEmpty, t.VersionOK = p.ID == "", p.Version == ""
+	t.IDNonEmpty, t.VersionOK = p.ID == "" || strings.HasPrefix(p.ID, "long-"), p.Version == ""
+	if strings.HasPrefix(p.ID, "long-") || strings.HasPrefix(p.Relay, "long-") {
+		t.Conformant = false // (RelayState is limited to 80 bytes by the bindings; nothing obliges the IdP to accept oversized values)
+	}
 	adv := cfg.SSOLocation(host)
 	switch p.Dest {
 	case "":
@@ -440,6 +444,10 @@ func ssoBuild(p ssoP) (*world.World, *http.Request, *ssoTruth) {
 	case "9":
 		o.IssueInstant = world.Now.Add(-time.Second).Format("2006-01-02T15:04:05.000000000Z")
 	}
+	if strings.HasPrefix(p.ID, "long-") {
+		n, _ := strconv.Atoi(p.ID[5:])
+		o.ID = "_" + world.LongToken(n-1)
+	}
 	tree := msg.Authn(o)
 	switch p.ID {
 	case "absent":
@@ -489,6 +497,10 @@ func ssoBuild(p ssoP) (*world.World, *http.Request, *ssoTruth) {
 	case "url":
 		relay = "https://evil.example/landing?x=1&y=2"
 		t.ForeignURLs = append(t.ForeignURLs, relay)
+	}
+	if strings.HasPrefix(p.Relay, "long-") {
+		n, _ := strconv.Atoi(p.Relay[5:])
+		relay = world.LongToken(n)
 	}
 	if p.RelayRaw != nil {
 		relay = *p.RelayRaw
